@@ -687,8 +687,8 @@ func (e *Ev) applyContract(x ast.Node, con *Contract, fn *types.Func, recv Val, 
 			nm = con.Results[i]
 		}
 		rv := fx.fresh(sig.Results().At(i).Type(), "r_"+fn.Name()+"_"+nm)
-		if rr, isRef := rv.(VRef); isRef {
-			fx.assume(e.st.pc, sLe(rr.T, fx.allocTerm(e.st)))
+		for _, rt := range refTermsOf(rv) {
+			fx.assume(e.st.pc, sLe(rt, fx.allocTerm(e.st)))
 		}
 		results = append(results, rv)
 		if i < len(con.Results) && con.Results[i] != "_" {
